@@ -138,7 +138,7 @@ def run_check(pid, tier, seed, replay=None, write_evidence=True):
         rng = random.Random(seed)
         ctl = []
         if hasattr(mod, "negctl") and not replay:
-            cands = [e for e in uevents if e.get("nontrivial")]
+            cands = [e for e in uevents if e.get("nontrivial") and e.get("kind") != "driver_exception" and not (e.get("kind") == "graph" and e.get("exc"))]
             rng.shuffle(cands)
             for e in cands:
                 if len(ctl) >= cfg.get("negctl", 12):
